@@ -276,6 +276,11 @@ class Gen:
     u = r.random()
     if u < 0.06:
       return '1 0 0 0'
+    if u < 0.14:                       # a small shim rotation (0.02 - 0.6 degrees): w = cos(angle/2) is within 1e-5 of 1
+      ax = r.normal(size=3); ax /= np.linalg.norm(ax)
+      ang = np.deg2rad(float(r.uniform(0.02, 0.6))) * (1 if r.random() < 0.5 else -1)
+      q = np.concatenate([[np.cos(ang / 2)], np.sin(ang / 2) * ax])
+      return ' '.join(repr(float(x)) for x in q)
     if u < 0.25:                       # quarter/half turns about an axis, full double precision
       ax = r.integers(0, 3)
       ang = [np.pi / 2, np.pi, -np.pi / 2, np.pi / 3][r.integers(0, 4)]
